@@ -1,5 +1,6 @@
 import PewProofs.Srr
 import PewProofs.SrrStack
+import PewProofs.SrrObject
 
 /-! # C09 — property theorems (statements only depend on `PewModel.Srr`) -/
 namespace Pew.Srr
@@ -642,5 +643,281 @@ example :
     (s.apply (.rename [("A", "B")])).isNone = true ∧ (s.apply (.remove ["A", "B"])).isNone = true ∧
     (s.apply (.add "A" "<f8" [d, d])).isNone = true := by
   decide +kernel
+
+/-! ## the object between calls: `get` with calibration, histories of reads and changes -/
+
+/-- **`SRRLaser.get` as the code runs is the specification, and leaves the object as it was.**  For an object whose
+layers are distinct existing buffers (`WF`; a dtype with at least one field) and every argument combination
+(`element` or all, `calibrate`, `flat`, `layer` or the reconstruction): the array returned by the mechanism - copy of the
+layer into a NEW buffer, `.T` view, field view, the in-place loop `data[name] = calibration[name].calibrate(data[name])`
+through the view, mean - is `getSpec` of the stored layers (pixel by pixel the stored layer / the reconstruction, each
+field through its own calibration), it fails exactly when `getSpec` fails, and afterwards `self.data`, names,
+calibrations and configuration are the same and EVERY buffer that existed before has the contents it had. -/
+theorem get_eq_spec {ρ : Type} (z : ρ) (mean : List ρ → ρ) (o : Laser ρ) (hwf : o.WF) (a : GetArgs) :
+    (o.get z mean a).map Prod.snd = getSpec z mean o.store.layers o.names o.cal o.cfg a ∧
+    ∀ o' out, o.get z mean a = some (o', out) →
+      o'.WF ∧ o'.store = o.store ∧ o'.data = o.data ∧ o.heap.length ≤ o'.heap.length ∧
+        ∀ bid, bid < o.heap.length → o'.heap[bid]? = o.heap[bid]? := by
+  refine ⟨get_value z mean o hwf a, ?_⟩
+  intro o' out h
+  obtain ⟨f1, f2, f3, f4, f5, f6⟩ := get_frame z mean o o' a out h
+  obtain ⟨hw, hs⟩ := frame_store o o' hwf f1 f2 f3 f4 f5 f6
+  exact ⟨hw, hs, f1, f5, f6⟩
+
+/-- non-vacuity, and why the copy matters: two 1 × 2 layers of one element `A` with calibration `x ↦ 2·x`.
+`get(calibrate=True, layer=1)` returns the calibrated transposed layer and the store still holds `[[3, 4]]`;
+the same loop run on a view of the STORED buffer (what `get` would do without `.copy()`) leaves `[[6, 8]]` in the store. -/
+example :
+    let l0 : Arr2 (List Int) := { rows := 1, cols := 2, get := fun _ c => [1 + (c : Int)] }
+    let l1 : Arr2 (List Int) := { rows := 1, cols := 2, get := fun _ c => [3 + (c : Int)] }
+    let o : Laser Int := Laser.load [l0, l1] ["A"] [("A", fun x => 2 * x)] (SrrConfig.make 35 140 (1 / 4) 0 [(0, 1)])
+    let a : GetArgs := { element := none, calibrate := true, flat := false, layer := some 1 }
+    ((o.get 0 (fun _ => 0) a).map (fun p => match p.2 with
+        | .img v => (v.rows, v.cols, v.get 0 0, v.get 1 0)
+        | .stack _ => (0, 0, [], []))) = some (2, 1, [6], [8]) ∧
+    ((o.get 0 (fun _ => 0) a).map (fun p => p.1.store.layers.map (fun b => (b.get 0 0, b.get 0 1))))
+      = some [([1], [2]), ([3], [4])] ∧
+    ((calLoopView (0 : Int) 1 o.cal 1 true o.names 0 o.heap).map (fun h => h.map (fun b => (b.get 0 0, b.get 0 1))))
+      = some [([1], [2]), ([6], [8])] := by
+  decide +kernel
+
+/-- **Reads do not change the store.**  After any sequence of calls of `get` (calibrated or not, a layer or the
+reconstruction, one element or all) on a well-formed object: the object is well-formed, the store (layers as values,
+names, calibrations, configuration) is the one before the calls, `self.data` names the same buffers, every buffer that
+existed before is unchanged, and the `k`-th call returned `getSpec` of the ORIGINAL store. -/
+theorem reads_do_not_change_store {ρ : Type} (z : ρ) (mean : List ρ → ρ) (o o' : Laser ρ) (hwf : o.WF)
+    (args : List GetArgs) (outs : List (GetOut (List ρ)))
+    (h : Laser.run z mean o (args.map Step.get) = some (o', outs)) :
+    o'.WF ∧ o'.store = o.store ∧ o'.data = o.data ∧
+      (∀ bid, bid < o.heap.length → o'.heap[bid]? = o.heap[bid]?) ∧
+      outs.map some = args.map (getSpec z mean o.store.layers o.names o.cal o.cfg) := by
+  obtain ⟨g1, g2, g3, _, g5, g6⟩ := run_gets z mean args o o' outs hwf h
+  exact ⟨g1, g2, g3, g5, g6⟩
+
+/-- **Every history of one object refines the history of its store.**  For any sequence of calls of `get`, assignments
+of new layers (`laser.data = …`, `laser.data[i] = …`), writes into a stored layer, changes of the configuration and of
+the calibrations: the object after the history stands for the store after the same history in the specification
+(`Store.run`, where a call of `get` does not change anything), the calls returned what the specification returns, and
+the object's history fails exactly when the specification's does. -/
+theorem history_refines {ρ : Type} (z : ρ) (mean : List ρ → ρ) (o : Laser ρ) (hwf : o.WF) (steps : List (Step ρ)) :
+    (∀ o' outs, Laser.run z mean o steps = some (o', outs) →
+      o'.WF ∧ Store.run z mean o.store steps = some (o'.store, outs)) ∧
+    (Laser.run z mean o steps = none → Store.run z mean o.store steps = none) :=
+  run_refines z mean steps o hwf
+
+example : (Laser.load [({ rows := 1, cols := 1, get := fun _ _ => [(1 : Int)] } : Arr2 (List Int)),
+      { rows := 1, cols := 1, get := fun _ _ => [2] }] ["A"] [] (SrrConfig.make 35 140 (1 / 4) 0 [(0, 1)])).WF :=
+  (load_wf _ _ _ _ (by decide)).1
+
+/-- **The reconstruction after reads is the geometric model of the original layers.**  On a well-formed object whose
+stored layers are a crossed stack accepted by the validity check (integer float magnification `M ≥ 1`): after ANY calls
+of `get` (calibrated reads of single layers included), a plain `get()` returns the 3-d array whose every voxel is the
+closed formula `voxel` evaluated on the layers the object held BEFORE those calls, and a plain `get(layer=i)` the
+stored layer `i` (`layerSpec`). -/
+theorem reconstruction_after_reads {ρ : Type} (z : ρ) (mean : List ρ → ρ) (o o' : Laser ρ) (hwf : o.WF)
+    (M : Nat) (hM : 1 ≤ M) (hm : o.cfg.magnification = (M : Rat)) (hscan : 0 < o.cfg.scantime) (hoffs : o.cfg.offs ≠ [])
+    (l0 s0 l1 s1 : Nat) (hc : Crossed o.store.layers l0 s0 l1 s1)
+    (hv : validForData o.cfg o.cfg.magnification o.store.layers = some true)
+    (reads : List GetArgs) (outs : List (GetOut (List ρ)))
+    (h : Laser.run z mean o (reads.map Step.get) = some (o', outs)) :
+    (∃ o'' out, o'.get z mean { element := none, calibrate := false, flat := false, layer := none } = some (o'', .stack out) ∧
+      out.rows = reconRows l0 M (subpixelsPerPixel o.cfg.size o.cfg.magnification) o.cfg.offs ∧
+      out.cols = reconCols l1 M (subpixelsPerPixel o.cfg.size o.cfg.magnification) o.cfg.offs ∧
+      out.depth = o.store.layers.length ∧
+      ∀ r cc i, out.get r cc i = voxel (List.replicate o.names.length z) l0 l1 M
+        (subpixelsPerPixel o.cfg.size o.cfg.magnification) o.cfg.warmup.toNat o.cfg.offs o.store.layers r cc i) ∧
+    (∀ i l, o.store.layers[i]? = some l →
+      ∃ o'' img, o'.get z mean { element := none, calibrate := false, flat := false, layer := some i } = some (o'', .img img) ∧
+        img = layerSpec l i) := by
+  obtain ⟨hwf', hs, _, _, _⟩ := run_gets z mean reads o o' outs hwf h
+  have hnm : o'.names = o.names := congrArg Store.names hs
+  have hcal : o'.cal = o.cal := congrArg Store.cal hs
+  have hcfg : o'.cfg = o.cfg := congrArg Store.cfg hs
+  have hlay : o'.store.layers = o.store.layers := congrArg Store.layers hs
+  constructor
+  · have hval := get_value z mean o' hwf' { element := none, calibrate := false, flat := false, layer := none }
+    obtain ⟨out, ho, h2, h3, h4, h5⟩ := krisskross_voxel_of_config (List.replicate o.names.length z) o.cfg M hM hm hscan hoffs
+      o.store.layers l0 s0 l1 s1 hc hv
+    rw [hlay, hnm, hcal, hcfg] at hval
+    simp only [getSpec, readPx, Bool.false_eq_true, if_false, ho, Option.map_some] at hval
+    cases hg : o'.get z mean { element := none, calibrate := false, flat := false, layer := none } with
+    | none => simp [hg] at hval
+    | some p =>
+      obtain ⟨o'', res⟩ := p
+      simp only [hg, Option.map_some, Option.some.injEq] at hval
+      subst hval
+      exact ⟨o'', out.map id, rfl, h2, h3, h4, h5⟩
+  · intro i l hl
+    have hval := get_value z mean o' hwf' { element := none, calibrate := false, flat := false, layer := some i }
+    rw [hlay, hnm, hcal, hcfg] at hval
+    simp only [getSpec, readPx, Bool.false_eq_true, if_false, hl, Option.map_some] at hval
+    cases hg : o'.get z mean { element := none, calibrate := false, flat := false, layer := some i } with
+    | none => simp [hg] at hval
+    | some p =>
+      obtain ⟨o'', res⟩ := p
+      simp only [hg, Option.map_some, Option.some.injEq] at hval
+      subst hval
+      exact ⟨o'', (layerSpec l i).map id, rfl, rfl⟩
+
+/-- **`get` for every argument combination against the geometric model, pointwise** (an independent statement of what
+`srrGet_reconstruction` and `layer_read` only unfold).  `f = readPx …` is what the arguments do to one record: all fields
+or the selected one, each through its own calibration when `calibrate`.  For a crossed stack accepted by the validity
+check (integer float magnification `M ≥ 1`):
+* `layer = i`: the image has the stored layer's shape (exchanged for odd `i`) and pixel `(r, cc)` is `f` of the stored
+  pixel `(r, cc)` (`(cc, r)` for odd `i`); `flat` changes nothing;
+* no layer, not flat: the 3-d array of shape `reconRows × reconCols × layers` whose voxel is `f` of the closed formula
+  `voxel` (the zero record outside the footprint goes through `f` as well);
+* no layer, flat: pixel `(r, cc)` holds, per value of the read, `mean` of that value of `f (voxel …)` over ALL layers. -/
+theorem get_follows_geometric_model {ρ : Type} (z : ρ) (mean : List ρ → ρ) (layers : List (Arr2 (List ρ)))
+    (names : List String) (cal : List (String × (ρ → ρ))) (c : SrrConfig) (M : Nat) (hM : 1 ≤ M)
+    (hm : c.magnification = (M : Rat)) (hscan : 0 < c.scantime) (hoffs : c.offs ≠ [])
+    (l0 s0 l1 s1 : Nat) (hc : Crossed layers l0 s0 l1 s1) (hv : validForData c c.magnification layers = some true)
+    (a : GetArgs) (f : List ρ → List ρ) (hf : readPx z names cal a = some f) :
+    (∀ i l, a.layer = some i → layers[i]? = some l →
+      ∃ img, getSpec z mean layers names cal c a = some (.img img) ∧
+        img.rows = (if i % 2 = 0 then l.rows else l.cols) ∧ img.cols = (if i % 2 = 0 then l.cols else l.rows) ∧
+        ∀ r cc, img.get r cc = f (if i % 2 = 0 then l.get r cc else l.get cc r)) ∧
+    (a.layer = none → a.flat = false →
+      ∃ out, getSpec z mean layers names cal c a = some (.stack out) ∧
+        out.rows = reconRows l0 M (subpixelsPerPixel c.size c.magnification) c.offs ∧
+        out.cols = reconCols l1 M (subpixelsPerPixel c.size c.magnification) c.offs ∧
+        out.depth = layers.length ∧
+        ∀ r cc i, out.get r cc i = f (voxel (List.replicate names.length z) l0 l1 M
+          (subpixelsPerPixel c.size c.magnification) c.warmup.toNat c.offs layers r cc i)) ∧
+    (a.layer = none → a.flat = true →
+      ∃ img, getSpec z mean layers names cal c a = some (.img img) ∧
+        img.rows = reconRows l0 M (subpixelsPerPixel c.size c.magnification) c.offs ∧
+        img.cols = reconCols l1 M (subpixelsPerPixel c.size c.magnification) c.offs ∧
+        ∀ r cc, img.get r cc = (List.range (readWidth names a)).map (fun j =>
+          mean ((List.range layers.length).map (fun i =>
+            (f (voxel (List.replicate names.length z) l0 l1 M
+              (subpixelsPerPixel c.size c.magnification) c.warmup.toNat c.offs layers r cc i)).getD j z)))) := by
+  obtain ⟨out, ho, h2, h3, h4, h5⟩ := krisskross_voxel_of_config (List.replicate names.length z) c M hM hm hscan hoffs
+    layers l0 s0 l1 s1 hc hv
+  refine ⟨?_, ?_, ?_⟩
+  · intro i l hi hl
+    refine ⟨(layerSpec l i).map f, by simp [getSpec, hf, hi, hl], ?_, ?_, ?_⟩
+    · by_cases hp : i % 2 = 0 <;> simp [layerSpec, hp, Arr2.map]
+    · by_cases hp : i % 2 = 0 <;> simp [layerSpec, hp, Arr2.map]
+    · intro r cc
+      by_cases hp : i % 2 = 0 <;> simp [layerSpec, hp, Arr2.map]
+  · intro hl hflat
+    refine ⟨out.map f, by simp [getSpec, hf, hl, ho, hflat], h2, h3, h4, ?_⟩
+    intro r cc i
+    simp only [Arr3.map, h5]
+  · intro hl hflat
+    refine ⟨meanPx z mean (readWidth names a) (out.map f), by simp [getSpec, hf, hl, ho, hflat], h2, h3, ?_⟩
+    intro r cc
+    simp only [meanPx, Arr3.map, h4, h5]
+
+/-- non-vacuity: all fields calibrated (`A` through `x ↦ (x - 1) / 2`, `B` through the default) and one field selected -/
+example :
+    let cal : List (String × (Rat → Rat)) := [("A", Calib.apply { intercept := 1, gradient := 2 }),
+      ("B", Calib.apply { intercept := 0, gradient := 1 })]
+    (readPx (0 : Rat) ["A", "B"] cal { element := none, calibrate := true, flat := false, layer := none }).map (· [5, 7])
+      = some [2, 7] ∧
+    (readPx (0 : Rat) ["A", "B"] cal { element := some "A", calibrate := true, flat := true, layer := some 3 }).map (· [5, 7])
+      = some [2] ∧
+    (readPx (0 : Rat) ["A", "B"] cal { element := some "C", calibrate := false, flat := false, layer := none }).isNone = true := by
+  decide +kernel
+
+/-! ## same-parity layers of different lengths -/
+
+/-- **The reconstruction of a stack whose layers differ in length.**  `Crossed` fixes one length per layer kind; the
+code does not need that: for every stack with `l0` lines in the even and `l1` lines in the odd layers in which EVERY
+layer holds the warm-up and the samples read from it (`Ragged`; excess samples differ from layer to layer), every integer
+magnification `M ≥ 1`, any non-empty offsets: the validity check accepts (it reads layers 0 and 1), `krisskross`
+succeeds with the shape of the crossed case, every voxel is the closed formula `voxel` (which never mentions a line
+length) and every source index exists.  (The converse direction is where `Crossed` matters: acceptance looks at the
+first two layers only, so for a ragged stack it does not imply that a later layer is long enough.) -/
+theorem krisskross_voxel_ragged {α : Type} (z : α) (c : SrrConfig) (M : Nat) (hM : 1 ≤ M)
+    (hscan : 0 < c.scantime) (hoffs : c.offs ≠ []) (layers : List (Arr2 α)) (l0 l1 wn : Nat)
+    (hw : c.warmup = (wn : Int)) (hr : Ragged layers l0 l1 M wn) :
+    validForData c (M : Rat) layers = some true ∧
+    ∃ out, krisskross z c (M : Rat) layers = some out ∧
+      out.rows = reconRows l0 M (subpixelsPerPixel c.size (M : Rat)) c.offs ∧
+      out.cols = reconCols l1 M (subpixelsPerPixel c.size (M : Rat)) c.offs ∧
+      out.depth = layers.length ∧
+      (∀ r cc i, out.get r cc i
+        = voxel z l0 l1 M (subpixelsPerPixel c.size (M : Rat)) wn c.offs layers r cc i) ∧
+      (∀ r cc i, i < layers.length →
+        voxelInRange l0 l1 M (subpixelsPerPixel c.size (M : Rat)) wn c.offs layers r cc i = true) := by
+  have hal := aligned_ragged z c M hM layers l0 l1 wn hw hr
+  obtain ⟨h2, hs⟩ := hr
+  have e0 : layers[0]? = some layers[0] := List.getElem?_eq_getElem (by omega)
+  have e1 : layers[1]? = some layers[1] := List.getElem?_eq_getElem (by omega)
+  have a0 := hs 0 _ e0
+  have a1 := hs 1 _ e1
+  simp only [Nat.zero_mod, if_true] at a0
+  simp only [show (1 : Nat) % 2 = 1 from rfl, Nat.one_ne_zero, if_false] at a1
+  refine ⟨?v, ?w, ?e, ?a, ?b, ?d, ?f, ?g⟩
+  case v =>
+    unfold validForData
+    rw [e0, e1]
+    simp only [magInt_natCast M hM, magAxis_natCast M hM, Arr2.dim, if_true, a0.1, a1.1, hw]
+    have hsign : ¬ c.warmupSeconds < 0 := by
+      unfold SrrConfig.warmupSeconds
+      rw [fl_neg_iff, hw]
+      have : (0 : Rat) ≤ ((wn : Int) : Rat) := by exact_mod_cast Int.natCast_nonneg wn
+      have := mul_nonneg this hscan.le
+      linarith
+    rw [if_neg hsign]
+    have b0 : ¬ ((layers[0].cols : Int) < (wn : Int) + ((l1 * M : Nat) : Int)) := by
+      have := a0.2; push_cast; omega
+    have b1 : ¬ ((layers[1].cols : Int) < (wn : Int) + ((l0 * M : Nat) : Int)) := by
+      have := a1.2; push_cast; omega
+    rw [if_neg b0, if_neg b1]
+  case e =>
+    unfold krisskross
+    rw [hal]
+    simp only
+    rw [subpixelOffset_dup z _ c.offs hoffs]
+  case a => rfl
+  case b => rfl
+  case d => rfl
+  case f =>
+    intro r cc i
+    generalize subpixelsPerPixel c.size (M : Rat) = p
+    simp only [voxel, inFootprint, sourceIndex, Bool.and_eq_true, decide_eq_true_eq]
+    cases hl : layers[i]? with
+    | none => simp
+    | some l =>
+      simp only [and_assoc]
+      split_ifs <;> rfl
+  case g =>
+    intro r cc i hi
+    generalize subpixelsPerPixel c.size (M : Rat) = p
+    have hl : layers[i]? = some layers[i] := List.getElem?_eq_getElem hi
+    have hsh := hs i _ hl
+    simp only [voxelInRange, hl, inFootprint, sourceIndex, Bool.and_eq_true, decide_eq_true_eq]
+    split
+    · rename_i hf
+      obtain ⟨⟨⟨_, f2⟩, _⟩, f4⟩ := hf
+      have a1' : (r - layerOffset c.offs i) / p < l0 * M :=
+        Nat.div_lt_of_lt_mul (by rw [Nat.mul_comm]; omega)
+      have a2' : (cc - layerOffset c.offs i) / p < l1 * M :=
+        Nat.div_lt_of_lt_mul (by rw [Nat.mul_comm]; omega)
+      by_cases hpar : i % 2 = 0
+      · simp only [hpar, if_true] at hsh ⊢
+        rw [hsh.1]
+        simp only [Bool.and_eq_true, decide_eq_true_eq]
+        exact ⟨Nat.div_lt_of_lt_mul (by rw [Nat.mul_comm]; exact a1'), by omega⟩
+      · simp only [hpar, if_false] at hsh ⊢
+        rw [hsh.1]
+        simp only [Bool.and_eq_true, decide_eq_true_eq]
+        exact ⟨Nat.div_lt_of_lt_mul (by rw [Nat.mul_comm]; exact a2'), by omega⟩
+    · rfl
+
+/-- non-vacuity: three layers, the third (even) one two samples longer than the first -/
+example :
+    let mk : Nat → Nat → Arr2 Int := fun r c => { rows := r, cols := c, get := fun a b => a * 100 + b }
+    Ragged [mk 2 4, mk 3 3, mk 2 6] 2 3 1 1 := by
+  refine ⟨by decide, ?_⟩
+  intro i l hl
+  match i with
+  | 0 => simp at hl; subst hl; simp
+  | 1 => simp at hl; subst hl; simp
+  | 2 => simp at hl; subst hl; simp
+  | (k + 3) => simp at hl
 
 end Pew.Srr
